@@ -71,16 +71,18 @@ def prReportCapabilities (data : Bytes) : Except PyErr PV := do
   let len ← getInt r "length"
   prReportCapabilitiesBody len r data
 
+/-- `result[name] = result[msb] * 256 + result[lsb]; del result[msb]; del result[lsb]` -/
+def combMsbLsb (r : PDict) (name msb lsb : String) : Except PyErr PDict := do
+  let m ← getInt r msb
+  let l ← getInt r lsb
+  pure (((r.set name (.int (m * 256 + l))).del msb).del lsb)
+
 /-- standard disc information: the three msb/lsb pairs are combined into one number each -/
 def discInfoStandard (data : Bytes) : Except PyErr PV := do
   let r ← decodeInto data Gen.ReadDiscInformation_sdi_bits []
-  let comb (r : PDict) (name : String) : Except PyErr PDict := do
-    let m ← getInt r (name ++ "_msb")
-    let l ← getInt r (name ++ "_lsb")
-    pure (((r.set name (.int (m * 256 + l))).del (name ++ "_msb")).del (name ++ "_lsb"))
-  let r ← comb r "number_of_sessions"
-  let r ← comb r "first_track_number_in_last_session"
-  let r ← comb r "last_track_number_in_last_session"
+  let r ← combMsbLsb r "number_of_sessions" "number_of_sessions_msb" "number_of_sessions_lsb"
+  let r ← combMsbLsb r "first_track_number_in_last_session" "first_track_number_in_last_session_msb" "first_track_number_in_last_session_lsb"
+  let r ← combMsbLsb r "last_track_number_in_last_session" "last_track_number_in_last_session_msb" "last_track_number_in_last_session_lsb"
   pure (.dict r)
 
 def discInfoTrack (data : Bytes) : Except PyErr PV := do
